@@ -77,7 +77,13 @@ func (gi *gitlabImporter) ImportAll(ctx context.Context, repo *cache.RepoCache, 
 				StateEvents(ctx, gi.client, issue),
 			)
 
+			failed := false
 			for e := range issueEvents {
+				if failed {
+					// the events that follow a failed one are left for the next import,
+					// where they will be imported in order
+					continue
+				}
 				if e, ok := e.(ErrorEvent); ok {
 					out <- core.NewImportError(e.Err, "")
 					continue
@@ -85,6 +91,7 @@ func (gi *gitlabImporter) ImportAll(ctx context.Context, repo *cache.RepoCache, 
 				if err := gi.ensureIssueEvent(repo, b, issue, e); err != nil {
 					err := fmt.Errorf("issue event creation: %v", err)
 					out <- core.NewImportError(err, entity.Id(e.ID()))
+					failed = true
 				}
 			}
 
